@@ -63,6 +63,14 @@ META = {
                 strengthened="call histories on trace objects (direct burn(n), incremental burn(1) chains, summaries of the parent first) are now tape-chosen; before, every summary came from a fresh trace.burn(n)"),
  "C14-n2": dict(property="C14", breaks="_posterior_frequencies' per-allele 'last seen' stamp is the within-chain step index: occurrence is under-counted across chains",
                 needs="multi-chain trace with an allele present at step s of chain c, absent until step s of chain c+1", caught_by="C14 quick: allele_frequency_mismatch (1304 of 4000 runs)", strengthened=None),
+ "C02-n1": dict(property="C02", breaks="CallingMCMC.fit skips the chain for a sample without reads and draws genotypes independently from the prior frequencies (ignores inbreeding)",
+                needs="a zero-read sample at a locus with SNVs and inbreeding > 0", caught_by="C02 quick: trace_accounting (387 of 6000 runs: fit() returned a trace the sampler never produced); C14 also",
+                strengthened="what fit() returns is now compared with the states observed at the sampler seams; unmodelled numpy.random calls fall back to a tape-seeded RandomState instead of a harness error"),
+ "C02-n2": dict(property="C02", breaks="compound_step reuses the previous sub-step's Gibbs conditional when the next copy holds a haplotype with the same SEQUENCE (valid only for the same allele index)",
+                needs="two alleles with identical sequences in the haplotype set, inbreeding > 0, Gibbs, a scan order visiting one duplicate right after the other",
+                caught_by="C02 quick: gibbs_draw_not_full_conditional (38 of 6000 runs)",
+                strengthened="the vector each Gibbs move is DRAWN from is now verified at the draw (before, only gibbs_options' return value was); duplicate haplotype rows added to the instances; "
+                             "the 'every position once per sweep' accounting, which flagged this change for the wrong reason, was demoted to a probe because the statement does not require a full sweep"),
  "C18-n1": dict(property="C18", breaks="trio_allele_log_pmf passes gamete_ploidy=tau_q to gamete_const_log_pmf for gamete p (copy-paste slip): Gibbs conditional wrong for unbalanced gametes",
                 needs="both parents known, tau_p != tau_q and comb(ploidy_p, tau_p-1) != comb(ploidy_p, tau_q-1), e.g. 4x x 2x -> 3x", caught_by="C18 quick: ped_gibbs_not_full_conditional (1027 of 4000 runs)", strengthened=None),
  "C18-n2": dict(property="C18", breaks="pair_allele_swap_step skips the read-likelihood ratio unless BOTH parents have reads ('and' instead of 'or')",
